@@ -35,6 +35,11 @@ PROPS = {
         "explanation": "search() equals the documented relation per kind over all strings (byte-level model of str); the Aho-Corasick arm is proved to accept exactly when some reported occurrence passes its start/end filter",
         "assumptions": ["the automaton reports exactly the occurrences of its needles (trusted spec of aho-corasick)", "list batching in parse_mapping is not under contract"],
     },
+    "C10": {
+        "units": {"paths": ["ObjectV::find", "ObjectVS::find"], "solver": ["solve_expression"]},
+        "explanation": "the default Object::find body is proved equal to path_lookup (descend objects, name[i] = i-th array element, any missing/ill-shaped step => None) for keys of any length; Nested object/scalar arms proved in solve_expression",
+        "assumptions": ["str::split / Array::iter().nth / Object::get wrappers (trusted specs)", "index text parsing (strip_suffix + parse::<usize>) uninterpreted", "sync-feature copy of find is textually identical (diffed by the check)", "Nested-over-array arm is a hole"],
+    },
     "C06": {
         "units": {"solver": SOLVER_CORE},
         "explanation": "and/or/not/all/of arms of the real solve_expression are proved equal to the truth-table spec (and3/or3/not3/of3 over sems) for groups of any length",
